@@ -40,10 +40,14 @@ def clause_code(tok, S):
 
 def objx(sh, S):
     """the mock object expression of a site: the movable mock type, or the non-movable one (mock id 3)"""
+    if sh.get('nm') == 'w':
+        return '*wmock'
     return '*nmock' if sh.get('nm') else '*mocks[cfg[%d].mock]' % S
 
 def guard(sh):
     """a site is only usable with a mock id of its own mock type (a script naming the wrong one is skipped, not executed)"""
+    if sh.get('nm') == 'w':
+        return 'if (c.mock != WM_ID || !wmock) return false;'
     return 'if (c.mock != NM_ID) return false;' if sh.get('nm') else 'if (c.mock < 0 || c.mock >= NMOCK) return false;'
 
 def call_text(sh, S):
@@ -126,6 +130,14 @@ def main(outdir):
         lines.append('bool make_expectation_%d(int, int);' % n)
     lines.append('bool make_expectation(int slot, int shape) { return ' +
                  ' || '.join('make_expectation_%d(slot, shape)' % n for n in range(NTU)) + '; }')
+    # requirements on the watched mock (object id 4)
+    lines.append('bool make_wmonitor(int k, int nq, int q1, int q2) { (void)q1; (void)q2; switch (k * 10 + nq) {')
+    for k in range(1, NMON + 1):
+        for nq, tail in ((0, ''), (1, '.IN_SEQUENCE(*seqs[q1])'), (2, '.IN_SEQUENCE(*seqs[q1], *seqs[q2])')):
+            lines.append('case %d: mons[%d] = NAMED_REQUIRE_DESTRUCTION(*wmock)%s; return true;' % (k * 10 + nq, k, tail))
+            sites['%s:%d' % (fname, len(lines))] = dict(kind='mon', k=k, nq=nq, name='NAMED_REQUIRE_DESTRUCTION(*wmock)',
+                                                          call='destructor for *wmock', obj='*wmock')
+    lines.append('default: return false; } }')
     lines.append('bool make_monitor(int k, int o, int nq, int q1, int q2) { (void)q1; (void)q2; switch (k * 10 + nq) {')
     for k in range(1, NMON + 1):
         for nq, tail in ((0, ''), (1, '.IN_SEQUENCE(*seqs[q1])'), (2, '.IN_SEQUENCE(*seqs[q1], *seqs[q2])')):
